@@ -28,6 +28,7 @@ META = {
 META["technique"] = "static analysis: dominance / provenance / typestate rules over rustc MIR facts (rustc_private driver) + path-partitioned abstract interpretation in a linear-inequality domain (view-length balance; Fourier-Motzkin emptiness, no execution, no external solver)"
 META["explanation"] += " R09.11 imbl's asserting partial calls (take / split_at / split_off / slice) in the Head, Tail, Skip modules take a position bounded by the vector's length, never one made of the limit / count alone (it panics for a limit beyond the length)."
 META["explanation"] += " R09.12 view-length balance (engine/rules/balance.py): a path-partitioned abstract interpretation in the domain of linear inequalities over L/C (limit, count), P (previous length), I, K (payload index / length), A, R (payload sizes), N, O (buffer length, old limit in the update functions): on every path of every arm of the three translators and of update_limit / update_count the length of the consumer's view after the emitted diffs, view(P) + effects, equals view(N') for the new source length in every feasible case (min / saturating_sub split into linear pieces, emptiness by Fourier-Motzkin elimination, a violation only with a concrete witness of the symbols); R09.13 every emitted Insert / Set / Remove index lies inside the view it is applied to and its computation does not underflow; R09.14 every item the poll function returns comes out of the container operations (translator / update function), never the polled source item itself."
+META["explanation"] += " R09.15 refill positions (balance.py): an item the adapter refills the view with (a looked-up `buffered_vector.get(i)`, an iterator group over the buffer, an appended slice of it) is taken from the buffer position adjacent to the view - index `cur` for a Head view (a prefix), `N' - cur - 1` (descending) for Tail and Skip views (suffixes) - in every feasible case, for translators and update functions: right count *and* right items."
 
 
 def run(ctx):
@@ -293,7 +294,9 @@ def r09_7(ctx, a):
                                  fn.path, "/".join(sorted(set(vs))), fmt(cnt, 4), fmt(unrelated[0], 3), a.param, a.param))
             else:
                 ctx.holds("R09.7", fn, "multiplicity:%s" % "/".join(sorted(set(vs))), where, "every limit in `%s` is compared with the length on this path" % fmt(cnt, 4))
-    ctx.floor("R09.7", n, {"head": 4, "tail": 5, "skip": 5}[a.name])
+    # no floor on the number of *sites* (helpers, `vec![d; n]`, loops change it); emitted indices and multiplicities are decided
+    # exactly by R09.10 / R09.12 / R09.13, whose floors count arms
+    ctx.floor("R09.7", n, 1)
 
 
 def collect_emits(body):
